@@ -24,9 +24,9 @@ def run(ctx):
     f7dir.mkdir(exist_ok=True)
     (f7dir / "s.tl").write_text(F7_SCHEMA)
     corpus = [c for c in repo_corpus(quick) if quick is False or c[0] != "cases_nosan"]
-    st = family_setup(ctx, PROPS, n_random=5 if quick else 40, corpus=corpus,
-                      extra_specs=[("f7", [f7dir / "s.tl"], ["--tl2WhiteList=*"], "*", True)], objx_random=1 if quick else 8)
-    nseeds = 8 if quick else 200
+    st = family_setup(ctx, PROPS, n_random=5 if quick else 15, corpus=corpus,
+                      extra_specs=[("f7", [f7dir / "s.tl"], ["--tl2WhiteList=*"], "*", True)], objx_random=1 if quick else 3)
+    nseeds = 8 if quick else 24
     stats = {"schemas": 0, "types": 0, "fills": 0, "model_unsupported_types": 0, "diverging_both": 0, "kernel_rejected": 0,
              "types_terminating_by_theorem": 0, "xwf_false": 0, "max_tl1_bytes": 0, "tl2_written": 0,
              "handler_fills": 0, "handler_fills_over_budget": 0, "handler_sizes_over_1023": 0,
@@ -153,7 +153,7 @@ def run(ctx):
             return any(u.ins[t2]["kind"] == "prim" and u.ins[t2]["name"] == "string" for t2 in reach(u.ins, tid))
         cands = [(tid, name) for tid, name, x in tops if rank[tid] > 0 and u.name != "f7" and has_string(tid)]
         rng.shuffle(cands)
-        cl = [f"oconc {name} {rng.getrandbits(32)} 12 {30 if quick else 200}" for tid, name in cands[:4 if quick else 20]]
+        cl = [f"oconc {name} {rng.getrandbits(32)} 12 {30 if quick else 90}" for tid, name in cands[:4 if quick else 12]]
         co = run_lines_resilient(u.gen.exe, [], cl, timeout=600, max_restarts=10)
         for l, g in zip(cl, co):
             name = l.split(" ")[1]
